@@ -547,6 +547,7 @@ class Runner:
             key = f"c14:{clause}:{'>'.join(labels[-4:])}:{detail}"
             shown = [(it.get("pdu") or "key" + str(it["key"])) for it in mini]
             shown = [x if len(x) <= 40 else x[:32] + f"..({len(x) // 2} bytes)" for x in shown]
+            shown = [x if it.get("adv", 1) == 1 else f"(+{it['adv'] * 0.25:g} s) {x}" for x, it in zip(shown, mini)]
             what = {
                 "raises": f"handle_request raised {last['exc'] if last and last['exc'] else detail}",
                 "left-sessions": f"the ECU ended in session {last['post'][0] if last else '?'} which its model does not offer",
@@ -772,7 +773,7 @@ def _run(ctx, env, rn):
     for prov in [p for p in rn.viol if p.startswith("dropped-connection:")]:
         _, real, items, _sig, impl = rn.viol.pop(prov)
         obs = rn.history(real, items, "handle_client-dropped")
-        if not any(o["exc"] for o in obs):
+        if not any(F.clauses_broken(o) for o in obs):
             ctx.disagree("c14:dropped-connection:" + prov.split(":", 1)[1], "TCPUDSServerTransport.handle_client dropped the connection "
                          f"during a history that handle_request survives: {impl}", rn.case_of(real, items), impl=impl,
                          model="connection stays open", spec_violated=True, site="TCPUDSServerTransport.handle_client")
